@@ -531,7 +531,14 @@ def check_forwarding(ck, F, tr, imp, iname, m):
     if hd.endswith("::Layered") and name in LAYERED_UNCONDITIONAL:
         for b, bb, t in fwd:
             if name == "clone_span" and t["callee"]["trait"] == SUBSCRIBE:
-                continue        # on_id_change is by design sent only when the inner collector returned a different id
+                # on_id_change is by design sent only when the inner collector returned a different id -- exactly then
+                from rulekit.query import guards_of as _g
+                gs, _ = _g(top, bb)
+                differs = [(x, v) for x, v in gs if (x.startswith("ne(clone_span(") and v != 0) or (x.startswith("eq(clone_span(") and v == 0)]
+                other = [(x, v) for x, v in gs if x not in ("0", "1") and (x, v) not in differs]
+                if not differs or other:
+                    problems.append("on_id_change is not sent exactly when the inner collector returned a different id (guards: %s)" % sorted(x[:60] for x, v in gs))
+                continue
             if b is top and not top.postdominates(bb, 0):
                 problems.append("`%s` is forwarded to %s only on some paths" % (t["callee"]["method"], receiver_key(b, t)))
     # Layered::try_close turns "the inner collector says this was the last reference" into the layer's on_close: that
